@@ -15,6 +15,7 @@ CONSTANTS
   VerifierEditKinds = {"pimove"}
   ProofEditKinds = {}
   SpliceSets <- NoSplices
+  SpliceProgs = {}
   ViolationKinds = {}
   ViolationPick <- NoPick
   MaxEdits = 1
